@@ -251,6 +251,8 @@ func (fx *FuncCtx) fresh(t types.Type, hint string) Val {
 			return VInt{n}
 		case u.Info()&types.IsString != 0:
 			return fx.freshStr(hint)
+		case u.Info()&types.IsFloat != 0:
+			return VOpaque{}
 		}
 	case *types.Slice:
 		if isByteSlice(t) {
